@@ -97,6 +97,13 @@ func (t *v3Tables) expectEnv(vi int, v *v3Vec) int {
 	return int(t.temp[vi][inner][int(v[8])*20+int(v[9])*4+int(v[10])])
 }
 
+// v3FreshCarrier: a constructor result whose exported fields are then set directly (never decoded)
+func v3FreshCarrier(ver m3.Version) *m3.Environmental {
+	em := m3.NewEnvironmental()
+	em.Ver = ver
+	return em
+}
+
 func v3Carrier(ver m3.Version) *m3.Environmental {
 	verLabel := v3VerLabel(ver)
 	em, err := m3.NewEnvironmental().Decode("CVSS:" + verLabel + "/AV:N/AC:L/PR:N/UI:N/S:U/C:H/I:H/A:H/E:X/RL:X/RC:X/CR:X/IR:X/AR:X/MAV:X/MAC:X/MPR:X/MUI:X/MS:X/MC:X/MI:X/MA:X")
@@ -227,6 +234,9 @@ func cmdV3Env(args []string) {
 		v3SetFromIndex(&v, 8, 11, rng.Intn(100))
 		ver := v3Versions[vi].Label
 		em := carriers[w][vi]
+		if n%2 == 1 { // every other block on an object that was never decoded: fields set directly on a constructor result
+			em = v3FreshCarrier(v3Versions[vi].C)
+		}
 		v3Assign(em, &v)
 		for k := 0; k < perBlock; k++ {
 			r := k
